@@ -1,5 +1,5 @@
 """C01 — field wire names in generated types equal serde's JSON keys (parser.rs get_ident + the six back ends)."""
-import itertools, re
+import itertools, re, unicodedata
 from common import *
 from syn_gen import *
 from gen import Gen, FIELD_WORDS, RENAME_WORDS, RULES, TYPE_WORDS, VARIANT_WORDS, rust_ident
@@ -64,30 +64,41 @@ def config(rng, lang):
 # ----------------------------------------------------------------------------- the specification, in python
 # (independent of the Lean model: attribute readers and serde_derive's RenameRule::apply_to_field on [a-z0-9_]*)
 
+def ascii_upper(s):
+    """str::to_ascii_uppercase - python's str.upper() is the full Unicode mapping (`ß` -> `SS`, `é` -> `É`), which serde never uses"""
+    return "".join(chr(ord(c) - 32) if "a" <= c <= "z" else c for c in s)
+
+
+def ascii_lower(s):
+    return "".join(chr(ord(c) + 32) if "A" <= c <= "Z" else c for c in s)
+
+
 def serde_rule(rule, s):
-    """RenameRule::apply_to_field; None where serde_derive itself panics (empty Pascal form under camelCase)"""
+    """RenameRule::apply_to_field; None where serde_derive itself panics (under camelCase `pascal[..1]` is a *byte* slice: an empty
+    Pascal form, or one that starts with a non-ASCII letter, is a panic of the derive macro).  Letters are mapped with the ASCII
+    case functions only, as in case.rs."""
     if rule in ("lowercase", "snake_case"):
         return s
     if rule in ("UPPERCASE", "SCREAMING_SNAKE_CASE"):
-        return s.upper()
+        return ascii_upper(s)
     if rule in ("PascalCase", "camelCase"):
         out, cap = [], True
         for ch in s:
             if ch == "_":
                 cap = True
             elif cap:
-                out.append(ch.upper())
+                out.append(ascii_upper(ch))
                 cap = False
             else:
                 out.append(ch)
         p = "".join(out)
         if rule == "PascalCase":
             return p
-        return None if not p else p[0].lower() + p[1:]
+        return None if not p or ord(p[0]) > 127 else ascii_lower(p[0]) + p[1:]
     if rule == "kebab-case":
         return s.replace("_", "-")
     if rule == "SCREAMING-KEBAB-CASE":
-        return s.upper().replace("_", "-")
+        return ascii_upper(s).replace("_", "-")
     return s        # not a rule name: serde rejects the program, typeshare keeps the identifier
 
 
@@ -158,11 +169,20 @@ def flat_items(items):
 
 # ----------------------------------------------------------------------------- extractors (binding semantics over text)
 
+DEBUG_U = re.compile(r"\\u\{([0-9a-fA-F]{1,6})\}")
+
+
 def debug_unescape(s):
-    """value of a `{:?}` / JS / Go string body (without the quotes)"""
+    """value of a `{:?}` / JS / Go string body (without the quotes); `\\u{h..}` is how Rust's Debug writes a combining mark
+    (Grapheme_Extend) or an unprintable character - also the spelling of JavaScript and Swift, not of Go or Kotlin (see
+    `foreign_escape_problems`)"""
     out, i = [], 0
     while i < len(s):
-        if s[i] == "\\" and i + 1 < len(s):
+        m = DEBUG_U.match(s, i)
+        if m:
+            out.append(chr(int(m.group(1), 16)))
+            i = m.end()
+        elif s[i] == "\\" and i + 1 < len(s):
             c = s[i + 1]
             out.append({"n": "\n", "r": "\r", "t": "\t", "0": "\0"}.get(c, c))
             i += 2
@@ -180,7 +200,15 @@ def ts_key(name):
         return debug_unescape(name[1:-1])
     # the token as written is the key the declaration carries (the same reading as the Lean `TypeScript.boundKey`); that a
     # token such as `9lives` (from `_9lives` under camelCase) is not a well-formed property name is C10's subject
-    return name if re.fullmatch(r"[A-Za-z0-9_$]+", name) else "<not a property name: %s>" % name
+    # (beyond ASCII a property name is an ECMAScript IdentifierName: letters, digits, combining marks, connector punctuation)
+    return name if all(js_name_char(ch) for ch in name) else "<not a property name: %s>" % name
+
+
+def js_name_char(ch):
+    return ch in "_$" or (ch.isalnum() if ord(ch) < 128 else unicodedata.category(ch) in JS_NAME_CATEGORIES)
+
+
+JS_NAME_CATEGORIES = {"Lu", "Ll", "Lt", "Lm", "Lo", "Nl", "Mn", "Mc", "Nd", "Pc"}
 
 
 def ext_typescript(text):
@@ -367,7 +395,8 @@ def ext_python(text):
             continue
         # `\w+`, not an identifier pattern: Python's snake-casing can produce attribute names such as `9_lives` (from
         # `_9lives`), which is not valid Python - a well-formedness matter (C10); the key binding is still the alias
-        m = re.match(r"^    ([^\s:]+): (.*)$", line)       # (not `\w+`: a name may carry combining marks, which `\w` does not match)
+        # (a combining mark U+0300..U+036F is part of an identifier, but not of python's `\w`)
+        m = re.match(r"^    ((?:\w|[\u0300-\u036f])+): (.*)$", line)
         if m:
             am = re.search(r' = Field\(alias="(.*?)"(?:, default=[^()]*)?\)$', m.group(2))
             out[cur].append(am.group(1) if am else m.group(1))
@@ -540,12 +569,12 @@ def random_file(rng):
     return {"attrs": [], "items": items}, g
 
 
-def grid_file(rule, rkind, ckind, idents, spell):
+def grid_file(rule, rkind, ckind, idents, spell, ftype="u8"):
     """one declaration holding every identifier of the dictionary under one (rule, rename kind, container kind)"""
     fs = []
     for j, w in enumerate(idents):
         serde = []
-        if rkind == "plain":
+        if rkind == "plain" or (rkind == "some" and j % 4 == 3):      # "some": every fourth field carries its own key
             serde.append(m_nv("rename", lit_s(["renamed%d", "newName%d", "UPPER%d", "_x%d"][j % 4] % j)))
         elif rkind == "dashed":
             serde.append(m_nv("rename", lit_s(["with-dash%d", "a-b-%d", "kebab-case-name%d", "X-%d"][j % 4] % j)))
@@ -559,7 +588,7 @@ def grid_file(rule, rkind, ckind, idents, spell):
             attrs = [m_list("serde", list(reversed(serde)))]
         else:
             attrs = [m_list("serde", [a]) for a in serde]
-        fs.append(field(attrs, rust_ident(w), t_path("u8")))
+        fs.append(field(attrs, rust_ident(w), t_path(ftype)))
     rule_attr = lambda r: [m_list("serde", [m_nv("rename_all", lit_s(r))])] if r else []
     if ckind == "struct":
         item = {"kind": "struct", "attrs": [m_path("typeshare")] + rule_attr(rule), "ident": "Holder", "generics": [],
@@ -582,6 +611,212 @@ class NoExt:
         return [S("ext"), []]
 
 
+# ----------------------------------------------------------------------------- identifiers beyond ASCII
+
+# Letters Rust admits in identifiers (XID_Start / XID_Continue, stable under NFC), grouped by what the Unicode case mappings do
+# to them.  serde_derive maps ASCII letters only (to_ascii_uppercase / to_ascii_lowercase), so under every rule each of these
+# letters must arrive in the key unchanged.
+UNI_CLASSES = {
+    # lower-case: str::to_uppercase changes every one (ß -> SS and ŉ -> ʼN change the length, ı -> ASCII I, ǆ -> Ǆ, ς and σ -> Σ)
+    "lower": "éöäüßıǆαςσжŉ",
+    # title-case digraphs: neither upper- nor lower-case for char::is_uppercase / is_lowercase (rustc's non_snake_case lint
+    # accepts them), yet changed by to_uppercase *and* by to_lowercase (ᾈ -> ἈΙ / ᾀ)
+    "title": "ǅǈᾈ",
+    # letters and a digit without case
+    "uncased": "名क٣",
+    # combining marks (XID_Continue only); placed after an ASCII letter with which NFC composes nothing
+    "mark": "\u0301\u0331",
+    # upper-case letters: outside the naming convention (the lint fires); used only under the rules that do not segment words
+    "upper": "ÉÖΣİЖ",
+}
+UNI_POSITIONS = ["initial", "segment-initial", "inner", "final"]
+NON_SEGMENTING = [None, "lowercase", "UPPERCASE", "PascalCase", "camelCase"]
+CKINDS = ("struct", "variant-enum-rule", "variant-own-rule")
+ESCAPE_FINDING = "debug-escaped-key-in-go-kotlin"
+
+
+def unicode_ident(rng, cls, pos):
+    """a snake_case identifier of 1-3 segments over [a-z0-9] with a letter of class `cls` at `pos` (first letter of the identifier,
+    first letter of a later segment, inside a segment, last letter) and sometimes a second non-ASCII letter elsewhere"""
+    letters = "abcdefghijklmnopqrstuvwxyz"
+    for _ in range(200):
+        nseg = rng.randint(2 if pos == "segment-initial" else 1, 3)
+        segs = [[rng.choice(letters * 3 + "0123456789") for _ in range(rng.randint(3 if pos == "inner" else 1, 4))] for _ in range(nseg)]
+        if segs[0][0].isdigit():
+            segs[0][0] = rng.choice(letters)
+        ch = rng.choice(UNI_CLASSES[cls])
+        if cls == "mark":
+            ch = rng.choice("xqwz") + ch
+        if pos == "initial":
+            k, i = 0, 0
+        elif pos == "segment-initial":
+            k, i = rng.randint(1, nseg - 1), 0
+        elif pos == "inner":
+            k = rng.randrange(nseg)
+            i = rng.randint(1, len(segs[k]) - 2)
+        else:
+            k, i = nseg - 1, -1
+        segs[k][i] = ch
+        if rng.random() < 0.4:
+            k2 = rng.randrange(nseg)
+            i2 = rng.randrange(len(segs[k2]))
+            if (k2, i2 % len(segs[k2])) != (k, i % len(segs[k])):
+                other = rng.choice(UNI_CLASSES[cls if cls != "mark" and rng.random() < 0.5 else "lower"])
+                if not (k2 == 0 and i2 == 0 and not other.isidentifier()):
+                    segs[k2][i2] = other
+        w = "_".join("".join(sg) for sg in segs)
+        if w.isidentifier() and unicodedata.normalize("NFC", w) == w and not w.isascii():
+            return w
+    raise InfraError("no identifier of class %s at %s" % (cls, pos))
+
+
+def undo_mark_escapes(ans):
+    r"""the implementation's text with Rust's Debug spelling of a combining mark (`\u{301}`) replaced by the mark (the model's
+    debugFmt writes Grapheme_Extend characters as they are - a difference of spelling inside Debug-formatted keys, reported)"""
+    if "ok" not in ans:
+        return ans
+    def back(m):
+        ch = chr(int(m.group(1), 16))
+        return ch if unicodedata.category(ch) == "Mn" else m.group(0)
+    return {"ok": {k: DEBUG_U.sub(back, v) for k, v in ans["ok"].items()}}
+
+
+def foreign_escape_problems(lang, ans):
+    r"""Go reads a struct tag with strconv.Unquote and Kotlin has no `\u{..}` escape: a key written with Rust's Debug spelling of a
+    combining mark is not that key in these two languages (TypeScript and Swift share Rust's spelling).  Returns (bindings whose
+    escapes are all combining marks - what Debug does today, the recorded class -, bindings with any other character escaped)"""
+    if lang not in ("go", "kotlin") or "ok" not in ans:
+        return [], []
+    pat = r'`json:"((?:[^"\\]|\\.)*)"`' if lang == "go" else r'@SerialName\("((?:[^"\\]|\\.)*)"\)'
+    marks, others = [], []
+    for text in ans["ok"].values():
+        for m in re.finditer(pat, text):
+            cats = [unicodedata.category(chr(int(h, 16))) for h in DEBUG_U.findall(m.group(1))]
+            if cats:
+                (marks if all(c in ("Mn", "Me") for c in cats) else others).append(m.group(0))
+    return marks, others
+
+
+def unicode_identifier_part(check):
+    """Dimension: *field identifiers beyond ASCII*.  Struct fields and struct-variant fields named with snake_case identifiers
+    that contain non-ASCII lower-case letters (é ö ß ı ǆ Greek Cyrillic ŉ), title-case digraphs (ǅ ǈ ᾈ), uncased letters and
+    digits (名 क ٣) or combining marks - at the start of the identifier, at the start of a later segment, inside and at the end -
+    plus identifiers with non-ASCII upper-case letters (É Ö Σ İ Ж; outside the convention, only under no rule / lowercase / UPPERCASE /
+    PascalCase / camelCase, which do not segment words), every fourth field with its own serde(rename); under no rule and each of
+    the eight rename_all rules, on a struct, on a struct variant under its own rule and on a struct variant under an enum-level
+    rule (which must not reach the fields), through all six back ends with random configurations.
+    Demanded: the key each generated declaration binds (C01's extractors on the implementation's text) is serde's key - computed by
+    the python port of case.rs, which is first shown equal to the vendored serde_derive case.rs (runner op `serde`) and to the Lean
+    port on every identifier used.  serde maps ASCII letters only, so every non-ASCII letter must arrive unchanged under every rule;
+    where serde_derive itself panics (camelCase on a non-ASCII initial: a byte slice) nothing is demanded.  The model's text is
+    compared as well."""
+    rng = check.rng
+    t0 = time.time()
+    rounds = 60 if check.thorough else 6
+    cases, idents = [], set()
+    for r in range(rounds):
+        conv = []
+        for i, cls in enumerate(["lower", "lower", "lower", "title", "uncased", "mark"]):
+            pos = UNI_POSITIONS[(i + r) % 4]
+            w = unicode_ident(rng, cls, pos)
+            if w not in conv:
+                conv.append(w)
+                check.count("unicode-ident:%s@%s" % (cls, pos))
+        conv += [w for w in rng.sample(WORDS, 2) if w not in conv]
+        rng.shuffle(conv)
+        unconv = []
+        for i in range(4):
+            pos = UNI_POSITIONS[(i + r) % 4]
+            w = unicode_ident(rng, "upper", pos)
+            if w not in unconv:
+                unconv.append(w)
+                check.count("unicode-ident:upper@%s" % pos)
+        unconv += [unicode_ident(rng, "lower", "inner"), rng.choice(WORDS)]
+        unconv = list(dict.fromkeys(unconv))
+        rng.shuffle(unconv)
+        idents |= {unraw(rust_ident(w)) for w in conv + unconv}
+        cell = r
+        for conventional, words, rules in ((True, conv, [None] + RULES), (False, unconv, NON_SEGMENTING)):
+            for rule in rules:
+                for ckind in (CKINDS if conventional else [CKINDS[cell % 3]]):
+                    f = grid_file(rule, "some", ckind, words, cell, ftype=["u8", "String", "u32"][cell % 3])
+                    applies = rule is not None and ckind != "variant-enum-rule"
+                    for lang in LANGS:
+                        cases.append(dict(file=f, gen=NoExt(), lang=lang, cfg=config(rng, lang), rule=rule, ckind=ckind, words=words,
+                                          conventional=conventional, applies=applies, key=("unicode", r, conventional, rule, ckind, lang),
+                                          cell=("unicode", r, rule, ckind) if r < 4 else None))
+                    cell += 1
+    truth = spec_tie(check, None, idents=idents, label="unicode spec-tie identifiers x rules")
+    if truth is None:
+        return []           # the ground truth itself is in doubt (reported)
+    check.count("unicode spec-tie: serde_derive itself panics (camelCase, non-ASCII initial)", sum(1 for a in truth.values() if "ok" not in a))
+    names = set()
+    for c in cases:
+        c["m"], c["r"], texts = l2.requests(c["lang"], c["cfg"], [{"crate": "", "file_name": "out", "path": "src/lib.rs", "file": c["file"]}], c["gen"])
+        c["text"] = texts[0]
+        if c["lang"] == "python":
+            names |= l2.names_of(c["file"])
+    mans = [l2.norm(a) for a in model([c["m"] for c in cases], names=names)]
+    rans = [l2.norm(a) for a in runner([c["r"] for c in cases])]
+    fails, first_diff, escapes, triples, sampled = [], None, None, 0, False
+    for c, ma, ra in zip(cases, mans, rans):
+        ok = "ok" in ra
+        check.saw(c["key"], nontrivial=ok and c["applies"])
+        check.count("unicode:%s-%s" % (c["lang"], "generated" if ok else "rejected"))
+        check.count("unicode:%s/%s/%s" % (c["rule"] or "none", c["ckind"], "conventional" if c["conventional"] else "with-upper-case"))
+        probs, n = oracle(c["lang"], c["cfg"], c["file"], ra)
+        triples += n
+        if ma != undo_mark_escapes(ra) and first_diff is None:
+            first_diff = (c, ma, ra)
+        esc, bad = foreign_escape_problems(c["lang"], ra)
+        probs += ["%s writes the key as %s: `\\u{..}` is not an escape sequence of that language, the declaration does not bind serde's key" % (c["lang"], b)
+                  for b in bad]
+        if probs:
+            fails.append((c, probs, ma, ra))
+        if esc and escapes is None:
+            escapes = {"lang": c["lang"], "source": c["text"], "written": esc[:3], "request": c["r"]}
+        if esc:
+            check.count("unicode:%s key written with a \\u{..} escape the language does not have" % c["lang"], len(esc))
+        if ok and c["applies"] and c["conventional"] and not sampled and c["lang"] == "go" and c["rule"] == "SCREAMING-KEBAB-CASE":
+            sampled = True
+            check.sample({"lang": c["lang"], "config": c["cfg"], "source": c["text"], "serde_keys": [[k, list(map(str, n_)), ks] for k, n_, ks in expected(c["file"])],
+                          "bound_keys": EXTRACT[c["lang"]]("\n".join(ra["ok"].values()))}, limit=7)
+    check.extra["unicode_triples_checked"] = triples
+    check.extra["unicode_part_s"] = round(time.time() - t0, 2)
+    if fails:
+        fails.sort(key=lambda t: not t[0]["conventional"])        # a witness inside the naming convention first
+        c, probs, ma, ra = fails[0]
+        scope = "" if c["conventional"] else " (an identifier with an upper-case letter: outside the naming convention, under a rule that does not segment words)"
+        check.violation("generated %s code binds a field whose identifier has non-ASCII letters to a JSON key that is not serde's%s, rename_all = %s on a %s: %s"
+                        % (c["lang"], scope, c["rule"], c["ckind"], probs[0]),
+                        case={"lang": c["lang"], "config": c["cfg"], "source": c["text"], "rename_all": c["rule"], "container": c["ckind"],
+                              "identifiers": c["words"], "serde_keys": [[k, list(map(str, n_)), ks] for k, n_, ks in expected(c["file"])],
+                              "problems": probs[:8], "request": c["r"],
+                              "failing_cases": sorted({"%s/%s/%s" % (x[0]["lang"], x[0]["rule"], x[0]["ckind"]) for x in fails})[:60]},
+                        impl=ra, model=ma, failing_input=True)
+    elif first_diff:
+        c, ma, ra = first_diff
+        d = None
+        if "ok" in ma and "ok" in ra:
+            for k in ra["ok"]:
+                d = d or l2.text_diff(ma["ok"].get(k, ""), undo_mark_escapes(ra)["ok"][k])
+        check.violation("the %s generator differs from the model on field identifiers with non-ASCII letters: %s" % (c["lang"], d or (str(ma)[:200] + " vs " + str(ra)[:200])),
+                        case={"lang": c["lang"], "config": c["cfg"], "source": c["text"], "request": c["r"]}, impl=ra, model=ma,
+                        failing_input=False,
+                        broken="correspondence L2 parse+generate_types on identifiers beyond ASCII (outside InScopeC01's [a-z][a-z0-9_]*; the theorems "
+                               "TsV.C01.* do not speak about these inputs, the agreement is empirical)")
+    if escapes and not check.known(ESCAPE_FINDING, escapes):
+        check.notes.append("finding not listed in KNOWN_FINDINGS.txt (%s): a key with a combining mark is Debug-formatted as `\\u{301}` inside a Go "
+                           "struct tag / a Kotlin @SerialName argument, where that is not an escape sequence; not judged here. First: %s"
+                           % (ESCAPE_FINDING, escapes["written"][0]))
+        check.extra["unlisted_finding_" + ESCAPE_FINDING] = escapes
+    check.assumptions += [
+        "identifiers beyond ASCII: a TypeScript property name may be any ECMAScript IdentifierName; `\\u{h}` inside a quoted TypeScript key or a "
+        "Swift raw value denotes the character (both languages have that escape); Go's encoding/json ignoring *unexported* fields (a Go field "
+        "name that starts with a letter outside Lu, as `é`, `名前`) is outside the binding semantics used here (the json tag)"]
+    return cases
+
+
 # ----------------------------------------------------------------------------- the check
 
 def run(check):
@@ -597,7 +832,13 @@ def run(check):
                   "(thorough: exhaustive; quick: every cell under one language in rotation). Model text vs implementation text "
                   "byte-exact; the oracle extracts (declaration, field index, bound JSON key) from the implementation's text per "
                   "language and compares with serde's key computed in python from the source AST. non-trivial = some field of "
-                  "the program is renamed or under a rename_all rule" % len(WORDS))
+                  "the program is renamed or under a rename_all rule; "
+                  "(c) field identifiers beyond ASCII (unicode_identifier_part): %d rounds of 8 + 6 random snake_case identifiers with "
+                  "non-ASCII lower-case / title-case / uncased letters, combining marks (and, outside the convention, upper-case "
+                  "letters) at the start, at a segment start, inside and at the end, x {no rule, 8 rules} x {struct, variant under "
+                  "enum-level rule, variant under own rule} x 6 languages; same oracle, serde's key from the python port of case.rs "
+                  "tied to the vendored case.rs on every identifier used; non-trivial there = a rule applies to the fields"
+                  % (len(WORDS), 60 if check.thorough else 6))
     cases = []
     for i in range(nrandom):
         f, g = random_file(rng)
@@ -660,11 +901,13 @@ def run(check):
                         case={"lang": c["lang"], "config": c["cfg"], "source": c["text"], "request": c["r"]}, impl=ra, model=ma,
                         failing_input=False,
                         broken="correspondence L2 parse+generate_types (theorems TsV.C01.C01, C01_backend_struct, C01_backend_enum, C01_parse_struct, C01_parse_variant)")
+    beyond_ascii = unicode_identifier_part(check) if not check.has_failing() else []
     if check.thorough:
         check.exhaustive = True
         check.extra["exhaustive_scope"] = ("{none, 8 rules} x {rename absent, plain, dashed, keyword} x {struct, variant under enum-level "
                                            "rule, variant under own rule} x 6 languages x 40 identifiers")
-        serde_compiled(check, [c for c in cases if c["lang"] == "typescript"])
+        # (with the real derive macro on the identifiers beyond ASCII of the first rounds, too)
+        serde_compiled(check, [c for c in cases if c["lang"] == "typescript"] + [c for c in beyond_ascii if c["lang"] == "typescript" and c["cell"]])
     check.assumptions += [
         "what a generated declaration means in its language (which JSON key a property / parameter / tag binds) is the binding "
         "semantics stated in TsV/Lemmas/C01_Spec.lean and, independently, in the extractors of tools/c01.py; the target compilers "
@@ -687,10 +930,11 @@ def all_attr_lists(file):
                         yield f["attrs"]
 
 
-def spec_tie(check, cases):
+def spec_tie(check, cases, idents=None, label="spec-tie identifiers x rules"):
     """the python port of RenameRule::apply_to_field (the oracle's ground truth) against the vendored serde_derive case.rs
-    (through the runner) and against the Lean port, on every identifier the cases use"""
-    idents = set(DICT) | set(WORDS)
+    (through the runner) and against the Lean port, on every identifier the cases use; returns the vendored answers
+    {(identifier, rule): answer}"""
+    idents = set(DICT) | set(WORDS) if idents is None else set(idents)
     reqs, mreqs, meta = [], [], []
     for w in sorted(idents):
         for rule in RULES:
@@ -712,7 +956,8 @@ def spec_tie(check, cases):
                             case={"ident": w, "rule": rule}, impl=ra, model=ma, failing_input=False,
                             broken="specification tie: TsV.Serde.applyField vs serde_derive case.rs (theorem TsV.C01.C01_parse_field)")
             return
-    check.count("spec-tie identifiers x rules", len(meta))
+    check.count(label, len(meta))
+    return {k: ra for k, ra in zip(meta, rans)}
 
 
 # ----------------------------------------------------------------------------- thorough: the real serde_derive
@@ -733,14 +978,15 @@ def serde_only(attrs):
 
 def serde_program(idx, file):
     """the program with every field type replaced by u8, only the serde attributes that matter kept, plus a function
-    printing the serialised form of a default value of every struct / struct variant"""
+    printing the serialised form of a default value of every struct / struct variant (a field on which serde_derive itself
+    panics - camelCase on a non-ASCII initial - is left out: the crate would not compile)"""
     items, prints = [], []
     for it in flat_items(file["items"]):
         if it["kind"] == "struct" and it["fields"][0] == "named":
             ra = serde_nv(it["attrs"], "rename_all")
             if ra is not None and ra not in RULES:
                 return None
-            fs = [field(serde_only(f["attrs"]), f["ident"], t_path("u8")) for f in it["fields"][1]]
+            fs = [field(serde_only(f["attrs"]), f["ident"], t_path("u8")) for f in it["fields"][1] if serde_key(f, ra) is not None]
             items.append({"kind": "struct", "attrs": [m_list("derive", [m_path("serde", "Serialize"), m_path("Default")])] + serde_only(it["attrs"]),
                           "ident": it["ident"], "generics": [], "fields": ("named", fs)})
             prints.append(('S', it["ident"], None, "%s::default()" % it["ident"]))
@@ -754,10 +1000,11 @@ def serde_program(idx, file):
                 if vra is not None and vra not in RULES:
                     return None
                 if v["fields"][0] == "named":
-                    fs = [field(serde_only(f["attrs"]), f["ident"], t_path("u8")) for f in v["fields"][1]]
+                    kept = [f for f in v["fields"][1] if serde_key(f, vra) is not None]
+                    fs = [field(serde_only(f["attrs"]), f["ident"], t_path("u8")) for f in kept]
                     vs.append({"attrs": serde_only(v["attrs"]), "ident": v["ident"], "fields": ("named", fs)})
                     if not skip_marked(v["attrs"]):
-                        init = ", ".join("%s: 0" % f["ident"] for f in v["fields"][1])
+                        init = ", ".join("%s: 0" % f["ident"] for f in kept)
                         prints.append(('V', it["ident"], v["ident"], "%s::%s { %s }" % (it["ident"], v["ident"], init)))
                 elif v["fields"][0] == "unnamed":
                     vs.append({"attrs": serde_only(v["attrs"]), "ident": v["ident"], "fields": ("unnamed", [field([], None, t_path("u8"))])})
@@ -770,7 +1017,7 @@ def serde_program(idx, file):
     for kind, a, b, expr in prints:
         body += '        println!("%d\\t%s\\t%s\\t{}", serde_json::to_string(&%s).unwrap());\n' % (idx, a, b or "", expr)
     body += "    }\n"
-    return "#[allow(non_snake_case, non_camel_case_types, dead_code)]\npub mod p%d {\n%s}\n" % (idx, body)
+    return "#[allow(non_snake_case, non_camel_case_types, dead_code, uncommon_codepoints, mixed_script_confusables, confusable_idents)]\npub mod p%d {\n%s}\n" % (idx, body)
 
 
 def plain_item(it):
@@ -818,7 +1065,7 @@ def serde_compiled(check, cases):
         for it in flat_items(c["file"]["items"]):
             if it["kind"] == "struct" and it["fields"][0] == "named":
                 ra = serde_nv(it["attrs"], "rename_all")
-                pairs.append((it["ident"], [serde_key(f, ra) for f in it["fields"][1] if not serde_skip(f["attrs"])],
+                pairs.append((it["ident"], [serde_key(f, ra) for f in it["fields"][1] if not serde_skip(f["attrs"]) and serde_key(f, ra) is not None],
                               list(got.get((i, it["ident"], ""), {"<missing>": 0}).keys())))
             elif it["kind"] == "enum":
                 content = serde_nv(it["attrs"], "content")
@@ -828,7 +1075,7 @@ def serde_compiled(check, cases):
                     vra = serde_nv(v["attrs"], "rename_all")
                     obj = got.get((i, it["ident"], v["ident"]))
                     pairs.append((it["ident"] + "::" + v["ident"],
-                                  [serde_key(f, vra) for f in v["fields"][1] if not serde_skip(f["attrs"])],
+                                  [serde_key(f, vra) for f in v["fields"][1] if not serde_skip(f["attrs"]) and serde_key(f, vra) is not None],
                                   list(obj[content].keys()) if obj and content in obj else ["<missing>"]))
         for what, want, have in pairs:
             n += len(want)
